@@ -119,6 +119,7 @@ class Interp:
         self.leaf_calls: list[tuple[str, list, str]] = []
         self.guards: list[tuple[tuple, str, int]] = []
         self.raise_terms: dict[int, tuple] = {}
+        self.unknown_calls: set[str] = set()
         self.scans: list[dict] = []
         self.call_log: list[str] = []
         self.attr_writes: list[tuple[str, tuple, int]] = []
@@ -878,6 +879,11 @@ class Interp:
         if r is not None and isinstance(r[1], ast.FunctionDef):
             return self.call_fn(r[1], args, kw, None, r[0], False)
         extra = tuple(("kw", k, v) for k, v in sorted(kw.items()))
+        if name not in KNOWN_HERBRAND:
+            # a library function the analyser has neither a model nor a frozen uninterpreted reading for: the term
+            # carries a marker, and a failed term identity that involves it is reported as undecided, not as a violation
+            self.unknown_calls.add(name)
+            return ("app", "?" + name, tuple(args) + extra)
         return ("app", name, tuple(args) + extra)
 
     def call_builtin(self, name, args, kw, node):
@@ -1585,6 +1591,21 @@ def _p_clip(I, args, kw, node):
     hi = args[2] if len(args) > 2 else kw.get("max", kw.get("a_max", NONE))
     return I.pointwise("clip", [args[0], lo, hi])
 
+
+# library functions that today's code uses and that the rules read as uninterpreted (Herbrand) functions on purpose
+KNOWN_HERBRAND = {
+    "chex.assert_shape", "jax.devices", "jax.scipy.stats.poisson.cdf", "jax.scipy.stats.poisson.pmf", "lax.dynamic_slice",
+    "np.diff", "np.floor", "np.full", "np.isfinite", "np.log10", "np.outer", "np.ravel_multi_index", "np.repeat",
+    "np.unravel_index", "numpyro.distributions.Gamma", "numpyro.distributions.Multinomial",
+    "numpyro.distributions.NegativeBinomialProbs", "scipy.stats.binom.pmf", "scipy.stats.poisson.pmf",
+    "np.tile", "np.indices", "np.cumsum", "np.sort", "np.flip", "np.ceil", "np.round", "np.sqrt", "np.sign",
+    "itertools.product", "np.ones", "np.ones_like", "np.full_like", "np.eye", "np.linspace", "np.meshgrid", "np.swapaxes",
+    "np.transpose", "np.expand_dims", "np.broadcast_to", "np.cumprod", "np.isnan", "np.nan_to_num", "np.int32", "np.int64",
+    "np.float32", "np.einsum", "lax.fori_loop", "lax.while_loop", "lax.dynamic_update_slice", "jax.tree_util.tree_map", "jax.tree_map",
+}
+for _n in ("np.einsum", "lax.fori_loop", "lax.while_loop", "jax.tree_util.tree_map", "jax.tree_map", "lax.dynamic_update_slice",
+           "np.meshgrid", "np.broadcast_to", "np.expand_dims"):
+    KNOWN_HERBRAND.discard(_n)  # no reading at all: marked when they appear
 
 # leading positional parameters of library functions, for calls that pass them by keyword
 PRIM_SIGS = {
